@@ -82,13 +82,18 @@ func VH_C13_select(n int, bestPing bool) {
 
 // Wait-list protocol at critical-section granularity.  subscribe / unsubscribe / notifySubscribers all
 // run under the pool lock, so they are atomic with respect to each other; a waiter's only unlocked
-// actions are "receive from my channel" and "give up" (unsubscribe).  Bounded histories of `steps`
-// steps over two waiters, with the step kind, seqnos and heads symbolic:
-//   - no step performs a channel operation that would block while the pool lock is held
-//     (engine VC would-block-send / would-block-select);
+// actions are "receive from my channel" and "decide to leave" (success, timeout or cancellation: from
+// then on it never receives again, and its deferred unsubscribe runs at some LATER step).  Bounded
+// histories of `steps` steps over two waiters; step kind, waiter, seqnos and heads are symbolic.
+//
+// A send that finds the channel of a waiter that is still receiving full is only a transient wait (the
+// waiter drains without needing the lock): the harness schedules that waiter first.  A send to the
+// full channel of a waiter that has decided to leave can never complete: notifySubscribers then
+// holds the read lock forever, unsubscribe and every later subscribe block on the write lock - the
+// pool is blocked.  The engine reports that as the VC "would-block-send".
+//   - no step blocks forever while holding the pool lock;
 //   - a waiter whose target has been reported by the best connection finds a head >= target in its channel;
-//   - a registered waiter never gets the sentinel id 0 (the id returned on the fast path), so
-//     unsubscribing a fast-path caller can never remove somebody else's registration.
+//   - a caller that leaves never removes somebody else's registration.
 func VH_C13_waitlist(steps int) {
 	p := New(BestPingStrategy)
 	best := &connection{id: 0, masterHeadUpdatedCh: p.masterHeadUpdatedCh}
@@ -98,54 +103,66 @@ func VH_C13_waitlist(steps int) {
 	var ids [2]uint64
 	var chans [2]chan ton.BlockIDExt
 	var want [2]uint32
-	var live, registered [2]bool
+	var live, registered, leaving [2]bool
 	for step := 0; step < steps; step++ {
 		op := zzvrt.NondetInt("op")
 		who := zzvrt.NondetInt("who")
-		zzvrt.Assume(op >= 0 && op <= 3 && who >= 0 && who <= 1)
+		zzvrt.Assume(op >= 0 && op <= 4 && who >= 0 && who <= 1)
+		// every step draws the same inputs whatever its kind (keeps replay input order path-independent)
+		wantIn, h := zzvrt.NondetU32("want"), zzvrt.NondetU32("h")
 		w := 0
 		if who == 1 {
 			w = 1
 		}
 		switch op {
-		case 0: // a waiter arrives
+		case 0: // a waiter arrives: WaitMasterchainSeqno calls subscribe
 			if !live[w] {
-				want[w] = zzvrt.NondetU32("want")
+				want[w] = wantIn
 				head := best.masterHead.Seqno
 				id, ch := p.subscribe(want[w])
-				ids[w], chans[w], live[w] = id, ch, true
-				if head >= want[w] {
+				ids[w], chans[w], live[w], leaving[w] = id, ch, true, false
+				registered[w] = head < want[w]
+				if !registered[w] {
 					zzvrt.Assert("fast-path-has-head", len(ch) == 1)
-					registered[w] = false
 				} else {
-					registered[w] = true
-					zzvrt.Assert("registered-id-is-not-the-sentinel", id != 0)
-					other := 1 - w
-					zzvrt.Assert("ids-distinct", !(live[other] && registered[other]) || ids[other] != id)
+					_, in := p.waitList[id]
+					zzvrt.Assert("registered", in)
 				}
 			}
 		case 1: // the best connection reports a newer head; the pool loop notifies the subscribers
-			h := zzvrt.NondetU32("h")
 			zzvrt.Assume(h > best.masterHead.Seqno)
 			best.masterHead.Seqno = h
+			for i := 0; i < 2; i++ {
+				if live[i] && registered[i] && !leaving[i] && len(chans[i]) > 0 {
+					// a full channel whose owner still receives: model the transient wait by letting it drain
+					<-chans[i]
+				}
+			}
 			var upd masterHeadUpdated
 			upd.Head.Seqno = h
 			upd.Conn = best
 			p.notifySubscribers(upd)
 			for i := 0; i < 2; i++ {
-				if live[i] && registered[i] && h >= want[i] {
+				if live[i] && registered[i] && !leaving[i] && h >= want[i] {
 					zzvrt.Assert("reached-target-is-in-the-channel", len(chans[i]) == 1)
 				}
 			}
-		case 2: // a waiter takes what is in its channel
-			if live[w] && len(chans[w]) > 0 {
+		case 2: // a waiter takes what is in its channel (the `case head := <-ch` arm)
+			if live[w] && !leaving[w] && len(chans[w]) > 0 {
 				got := <-chans[w]
 				if registered[w] && best.masterHead.Seqno >= want[w] {
 					zzvrt.Assert("latest-head-delivered", got.Seqno >= want[w])
 				}
+				if got.Seqno >= want[w] {
+					leaving[w] = true // success: return nil, deferred unsubscribe pending
+				}
 			}
-		case 3: // a waiter leaves (done, timed out or cancelled): `defer p.unsubscribe(waitID)`
+		case 3: // timeout or cancellation wins the select: the waiter stops receiving
 			if live[w] {
+				leaving[w] = true
+			}
+		case 4: // the deferred p.unsubscribe(waitID) of a waiter that has left
+			if live[w] && leaving[w] {
 				p.unsubscribe(ids[w])
 				live[w] = false
 				other := 1 - w
@@ -157,5 +174,6 @@ func VH_C13_waitlist(steps int) {
 		}
 	}
 	zzvrt.Cover("two-waiters-registered", live[0] && live[1] && registered[0] && registered[1])
+	zzvrt.Cover("left-with-full-channel", live[0] && leaving[0] && registered[0] && len(chans[0]) == 1)
 	zzvrt.ObserveInt("waitlist", len(p.waitList))
 }
